@@ -72,9 +72,16 @@ def genpred(rng, d=0):
         return '%s(@%s,"%s")' % (rng.choice(["contains", "starts-with"]), rng.choice(["x", "y"]), rng.choice(["a", "1", "b"]))
     if r < 0.8 and d < 2:
         return "not(%s)" % genpred_bool(rng, d + 1)
-    if r < 0.92 and d < 2:
+    if r < 0.86 and d < 2:
         return "%s %s %s" % (genpred_bool(rng, d + 1), rng.choice(["and", "or"]), genpred_bool(rng, d + 1))
+    if r < 0.93 and d < 2:
+        # operator precedence without parentheses: `and` binds tighter than `or`
+        return "%s %s %s %s %s" % (genatom(rng), rng.choice(["and", "or"]), genatom(rng), rng.choice(["and", "or"]), genatom(rng))
     return "(%s)" % genpred_bool(rng, d + 1) if d < 2 else "@x"
+
+
+def genatom(rng):
+    return rng.choice(["@x", "@y", '@x="1"', '@y="b"', "position()=1", "position()>1", 'contains(@y,"b")', "@p:z"])
 
 
 def genpred_bool(rng, d):
@@ -273,7 +280,8 @@ def gen_safe(rng):
         s = (ax + "::" if ax else "") + nt
         for _ in range(rng.choice([0, 1, 1, 2])):
             p = rng.choice([str(rng.randrange(1, 4)), "position()=last()", "@x", '@x="1"', "position()<3", 'contains(@y,"b")',
-                            '@x and position()=1', '@x="1" or @y'])
+                            '@x and position()=1', '@x="1" or @y', "@x or @y and position()=1", "@x and @y or position()>1",
+                            '@y="b" or @x and @y', "position()=1 and @x or @y"])
             s += "[%s]" % p
         steps.append(s)
     return "/".join(steps)
